@@ -10,6 +10,8 @@ import kt
 import fr
 import ic
 import ug
+import sc
+import ss
 
 
 class Ctx:
@@ -100,7 +102,41 @@ def fam_px(ctx, o):
     ug.run_px(ctx.facts, o)
 
 
+def fam_sc(ctx, o):
+    sc.run(ctx.facts, o)
+
+
+def fam_nf(ctx, o):
+    sc.run_nf(ctx.facts, o)
+
+
+def fam_ss13(ctx, o):
+    ss.run_c13(ctx.facts, o)
+
+
+def fam_ss12(ctx, o):
+    ss.run_c12(ctx.facts, o)
+
+
+def fam_ss14(ctx, o):
+    ss.run_c14(ctx.facts, o)
+
+
+def fam_ss15(ctx, o):
+    ss.run_c15(ctx.facts, o)
+
+
+def fam_sscurve(ctx, o):
+    ss.run_curve_siblings(ctx.facts, o)
+
+
+def fam_ss20(ctx, o):
+    ss.run_c20(ctx.facts, o)
+
+
 FAMILIES = {
+    'sc': fam_sc, 'nf': fam_nf, 'ss13': fam_ss13, 'ss12': fam_ss12, 'ss14': fam_ss14, 'ss15': fam_ss15,
+    'sscurve': fam_sscurve, 'ss20': fam_ss20,
     'ug': fam_ug, 'ab': fam_ab, 'u8': fam_u8, 'px': fam_px,
     'kt': fam_kt, 'kv': fam_kv, 'fr': fam_fr, 'fr_enc': fam_fr_enc, 'ic': fam_ic,
     'ed': fam_ed, 'dg': fam_dg, 'ea': fam_ea, 'kbu_bufs': fam_kbu_bufs, 'kbu_ticks': fam_kbu_ticks,
@@ -155,9 +191,44 @@ PROPS = {
         'floors': {'ED': 60, 'WR': 40, 'FL': 2, 'AL': 3, 'EP': 3},
         'title': 'I/O faults are surfaced, never swallowed or turned into partial results',
     },
+    'C11': {
+        'families': [('sc', ['SC-C11']), ('nf', ['NF']), ('kv', ['KV'])],
+        'floors': {'SC-C11': 24, 'NF': 40, 'KV': 15},
+        'title': 'Key/value, event and colour records decode per the format rules',
+    },
+    'C12': {
+        'families': [('sc', ['SC-C12']), ('ss12', ['SS-C12'])],
+        'floors': {'SC-C12': 12, 'SS-C12': 8},
+        'title': 'Timing-point lines resolve by the legacy precedence rules',
+    },
+    'C13': {
+        'families': [('ss13', ['SS-C13'])],
+        'floors': {'SS-C13': 13},
+        'title': 'Control-point collections stay ordered and lookups return the active point',
+    },
+    'C14': {
+        'families': [('sc', ['SC-C14']), ('ss14', ['SS-C14']), ('ab', ['AB'])],
+        'floors': {'SC-C14': 20, 'SS-C14': 8, 'AB': 4},
+        'title': 'Hit-object lines decode per the legacy grammar',
+    },
+    'C15': {
+        'families': [('sc', ['SC-C15']), ('ss15', ['SS-C15'])],
+        'floors': {'SC-C15': 13, 'SS-C15': 4},
+        'title': 'Map-level processing of hit objects: order, combos, velocity, sample defaults',
+    },
+    'C19': {
+        'families': [('sc', ['SC-C19']), ('sscurve', ['SS-C19'])],
+        'floors': {'SC-C19': 5, 'SS-C19': 10},
+        'title': 'Position along a curve is a faithful arc-length parametrisation',
+    },
+    'C20': {
+        'families': [('kbu_ticks', ['KBU']), ('sc', ['SC-C20']), ('ss20', ['SS-C20'])],
+        'floors': {'KBU': 1, 'SC-C20': 6, 'SS-C20': 12},
+        'title': 'Slider event stream has the legacy structure and timing',
+    },
     'C18': {
-        'families': [('kbu_bufs', ['KBU']), ('ci', ['CI'])],
-        'floors': {'KBU': 18, 'CI': 6},
+        'families': [('kbu_bufs', ['KBU']), ('ci', ['CI']), ('sscurve', ['SS-C18'])],
+        'floors': {'KBU': 18, 'CI': 6, 'SS-C18': 2},
         'title': 'Curve computation is pure: buffers, caches and API choice do not matter',
     },
 }
